@@ -19,6 +19,7 @@ ENGINES = [
     {"name": "TreeADT.tla", "path": "/verif/spec/TreeADT.tla", "serves_properties": ["C06", "C07", "C15"], "kind_free_text": "implementation-shaped Tree ADT with symbolic cache signatures under the sampler edit grammar; TraceTreeADT.tla validates recorded steps"},
     {"name": "GridRec.tla", "path": "/verif/spec/GridRec.tla", "serves_properties": ["C02", "C06", "C10", "C03"], "kind_free_text": "CCF-grid sum-product / max-product: definition vs implemented recursion; GridOracle.tla dumps exact integer vectors"},
     {"name": "Density.tla", "path": "/verif/spec/Density.tla", "serves_properties": ["C03"], "kind_free_text": "FS-CRP joint density as a symbolic record of the abstract state"},
+    {"name": "Chain.tla", "path": "/verif/spec/Chain.tla", "serves_properties": ["C15", "C19", "C13", "C14"], "kind_free_text": "chain driver state machine over option records; TraceChain.tla validates recorded event streams"},
     {"name": "Forests.tla", "path": "/verif/spec/Forests.tla", "serves_properties": ["C01", "C03", "C04", "C06", "C07", "C08", "C09", "C11", "C12", "C16"], "kind_free_text": "canonical forest universe"},
 ]
 
@@ -77,6 +78,34 @@ CHECKS = {
                 "outlier-prior / cluster-size settings, and must equal the record evaluated with lgamma/log (1e-9); ==/hash must agree with "
                 "equality of abstractions.",
         "note": "Trusted: TLC, lgamma/log evaluation of the record by the harness, integer likelihood tables. p=1 excluded.",
+    },
+    "C15": {
+        "engine": "TreeADT.tla + Chain.tla",
+        "category": "model_checking",
+        "technique": "TLC: DictRoundTrip inside the edit-grammar closure, Chain.tla trace protocol over the option cross-product; round trips + lock-step editing along real edit walks; TLC trace validation of recorded chains",
+        "design_ref": "DESIGN.md 5 C15",
+        "text": "TreeADT.tla contains the dictionary round trip as an action enabled at every idle point of the edit-grammar closure, and "
+                "Chain.tla proves TraceProtocol / TraceComplete / EntriesCurrent / AppendOnly for 2 592 option records. On the real code, every "
+                "live tree along in-place edit walks (4-5 points: index gaps after pruning, outlier-only and relabelled trees) is sent through "
+                "to_dict/from_dict, pickle and gzip-pickle: clades, outliers, labels, parents, per-node arrays (1e-12) and densities must be "
+                "equal; copies restored from stored dictionaries are edited in lock-step with the original and must stay equal, and the stored "
+                "dictionaries must stay valid. Seeded chains over an option grid: every entry restores to a tree over all data whose "
+                "log_p_one recomputed under the recorded alpha equals the recorded value, iterations follow the protocol, the gzip trace "
+                "file gives the same entries back, and each run's event stream is validated by TLC against Chain.tla.",
+        "note": "Trusted: TLC, recorder wrappers (module globals of phyclone.run, no source hooks), projection. Walks and chains are seeded samples.",
+    },
+    "C19": {
+        "engine": "Chain.tla",
+        "category": "model_checking",
+        "technique": "TLC model of the chain driver over the option cross-product (termination, protocol); full cross-product of real runs; TLC trace validation of every run's event stream",
+        "design_ref": "DESIGN.md 5 C19",
+        "text": "Chain.tla is model-checked over 2 592 option records (termination under weak fairness, trace protocol, cache freshness; the "
+                "never-clear deviation is refuted). run_phyclone_chain is executed for the FULL cross-product of 5 184 CLI boundary option "
+                "records (proposal, particles 1-3, threshold 0/.5/1, outlier prob 0/1e-4/.5/1, subtree prob 0/.5/1, thin, burn-in, time limit "
+                "inf/0, concentration update) on 1-2 data points (thorough: 1-3 points, 1-2 samples, 2 seeds) plus a seeded sample on 3 points: "
+                "no exception, every entry restores, is well-formed, holds all data and has a finite self-consistent log_p_one; each run's "
+                "recorded event stream is validated by TLC against Chain.tla.",
+        "note": "Trusted: TLC, recorder wrappers. One random trajectory per option record and seed; 3 main iterations; time limit abstracted to {inf, 0}.",
     },
     "C04": {
         "engine": "Moves.tla",
